@@ -623,7 +623,10 @@ theorem c06_comp_grad2 (C : Comp D S F) (v : Variant) (hit : F → F → Bool) (
     rw [hr'] at hnsg
     obtain ⟨f0, fr, hf, hfs, hn2⟩ := hsvc q hr'
     simp only [lowQ, Option.bind_some, hf, Option.map_some] at hnsg
-    simp only [cstep, hnsg, hfs, hn2, hf, hbd, hbs]
+    have hf' : C.fj s q = f0 :: fr := hf
+    have hn2' : c.nsg2 = some ((othersEval C d s q fr).map (·.2.2)) := hn2
+    have hnsg' : c.t.nsgrad = some (nsgradPure C.T cfg.parabola d s (q0 q f0)) := hnsg
+    simp only [cstep, hnsg', hfs, hn2', hf', hbd, hbs]
 
 end top
 
@@ -713,6 +716,37 @@ theorem c06_top_grad2_number_for_current_source {D S : Type} [Neg F] [OfNat F 0]
     c06_reset_for_current_source d0 s0 ops ns
   rw [c06_clear_for_current_source] at h
   exact h
+
+/-- the composite likelihood for the code as it is now: value and ns-gradient after any history -/
+theorem c06_comp_transparent_for_current_source {D S : Type} [Neg F] [OfNat F 0] [OfNat F 1]
+    [Transc F] (C : Comp D S F) (cfg : Cfg) (d0 : D) (s0 : S) (fops : List (FOp D S F))
+    (q : Query F) :
+    let hit : F → F → Bool := hitOf Gen.C06.variant cfg
+    let c := (crun C Gen.C06.variant hit cfg (cfresh d0 s0) (cexpandAll d0 fops)).1
+    (cstep C Gen.C06.variant hit cfg c (.cevaluate q)).2 =
+      match compPure C cfg.parabola (clastData d0 fops) (clastSrc s0 fops) q with
+      | some p => .vals p.1.1 p.1.2
+      | none => .evalError :=
+  c06_comp_transparent C Gen.C06.variant _ cfg (c06_sound_for_current_source cfg)
+    c06_reset_for_current_source d0 s0 fops q
+
+/-- the composite second derivative for the code as it is now -/
+theorem c06_comp_grad2_for_current_source {D S : Type} [Neg F] [OfNat F 0] [OfNat F 1] [Transc F]
+    (C : Comp D S F) (cfg : Cfg) (d0 : D) (s0 : S) (fops : List (FOp D S F)) (ns : F) :
+    let hit : F → F → Bool := hitOf Gen.C06.variant cfg
+    let c := (crun C Gen.C06.variant hit cfg (cfresh d0 s0) (cexpandAll d0 fops)).1
+    let d := clastData d0 fops
+    let s := clastSrc s0 fops
+    (cstep C Gen.C06.variant hit cfg c (.cgrad2 ns)).2 =
+      match clastEval C cfg.parabola s0 none fops with
+      | none => .refused
+      | some q =>
+        match C.fj s q with
+        | f0 :: fr => .grad2 (cgrad2Of C d s f0 fr (nsgradPure C.T cfg.parabola d s (q0 q f0))
+            ((othersEval C d s q fr).map (·.2.2)) ns)
+        | [] => .refused :=
+  c06_comp_grad2 C Gen.C06.variant _ cfg (c06_sound_for_current_source cfg)
+    c06_reset_for_current_source c06_clear_for_current_source d0 s0 fops ns
 
 /-- transparency for the code as it is now, without any hypothesis -/
 theorem c06_transparent_for_current_source {D S : Type} (W : World D S F) (cfg : Cfg) (d0 : D)
